@@ -306,7 +306,8 @@ func report(o opts, s *prep.Scratch, m *merged, t0 time.Time) int {
 		"world_use":           st.WorldUse,
 		"probes":              st.Probes,
 		"components":          realStub(),
-		"instrumented_sites":  map[string]any{"tree_map_ranges": s.RepoRep.MapSites, "runtime_map_ranges": s.HelpersRep.MapSites, "tree_world_calls": s.RepoRep.WorldCalls, "uncontrolled_world_calls": s.RepoRep.Uncontrolled},
+		"instrumented_sites":  map[string]any{"tree_map_ranges": s.RepoRep.MapSites, "runtime_map_ranges": s.HelpersRep.MapSites, "tree_world_calls": s.RepoRep.WorldCalls, "uncontrolled_world_calls": s.RepoRep.Uncontrolled,
+			"uncontrolled_go_statements_in_tree": s.RepoRep.GoStmts},
 		"known_findings_hit":  known,
 		"max_build_ms":        st.MaxMs,
 		"cases_requested":     engine1Tiers[o.prop][o.tier].cases,
@@ -330,7 +331,18 @@ func report(o opts, s *prep.Scratch, m *merged, t0 time.Time) int {
 }
 
 func runReplay(s *prep.Scratch, path string) (string, int) {
-	cmd := exec.Command(s.Worker, "replay", "-file", path)
+	out, code := runReplayN(s, path, 1)
+	if code == 0 && strings.Contains(out, "NOT-REPRODUCED") {
+		// one identical execution did not show it again: either the machinery is at fault or the
+		// program under test is itself nondeterministic (e.g. goroutines the simulator does not
+		// schedule). Repeat the same world; a reproduction is then reported as such.
+		out, code = runReplayN(s, path, 400)
+	}
+	return out, code
+}
+
+func runReplayN(s *prep.Scratch, path string, retries int) (string, int) {
+	cmd := exec.Command(s.Worker, "replay", "-file", path, "-retries", fmt.Sprint(retries))
 	cmd.Dir = s.Dir
 	var b bytes.Buffer
 	cmd.Stdout = &b
